@@ -191,10 +191,11 @@ def execute(scenario):
                 plan.append((row, item[0], item[1]))
                 if item[0] == "err":
                     break
+            given = [as_given(row) for row in batch]
             if len(batch) == 1:
-                ok = run.write_row(as_given(batch[0]), copy=False)
+                ok = run.write_row(given[0], copy=False)
             else:
-                batch_rows = [as_given(row) for row in batch]
+                batch_rows = list(given)
                 if scenario.get("rows_as_iterator"):
                     batch_rows = iter(batch_rows)  # any iterable of rows will do, also a one-shot one
                     result.probe("write_rows-with-one-shot-iterator")
@@ -204,6 +205,9 @@ def execute(scenario):
                 result.probe("write_rows-batch")
             outcome = "ok" if ok else lib.error_summary(run.results[-1])
             history.add("client", "write", {"rows": batch, "outcome": outcome})
+            if [list(row) for row in given] != [list(row) for row in batch]:
+                raise core.Violation("caller-rows-changed-by-writer", features, "rows passed were %r and are %r after the call" % (
+                    batch, given))
             last_row, last_kind, last_payload = plan[-1]
             if last_kind == "err":
                 if ok:
